@@ -27,12 +27,12 @@ CHECKS = {
  "C12": ("codec", "exploration",
    "property-based testing: round-trip oracle — frames written through h2's Codec are parsed by an independent RFC 9113 parser, reference-serialised frames are parsed by h2 under generated read chunkings (metamorphic: whole vs chunked), oversize-frame probe",
    "Generated frame sequences go through h2's Codec write side (scripted short writes, Pending, vectored on/off, multi-segment Buf payloads, max-frame-size changes) and must be read back identically, within the size limit, by the independent parser; reference-serialised frames of all ten types plus unknown types (all flags, padding, priority, reserved bits, CONTINUATION chains) must be parsed by h2 to the expected values for every generated read chunking, and a frame header announcing more than max_recv_frame_size must be refused with FRAME_SIZE_ERROR before any payload arrives.",
-   "Trusts refmodel::wire (round-trip self-test; must parse every byte h2 emits). Read side uses zero padding only (receivers MAY reject non-zero padding). GOAWAY debug data ≤ 1000 B as h2's callers only pass short static strings.",
+   "On a live connection (h2 <-> h2): frames within the advertised SETTINGS_MAX_FRAME_SIZE are parsed also after later SETTINGS frames that do not mention it (a FRAME_SIZE_ERROR accusation is the symptom). Trusts refmodel::wire (round-trip self-test; must parse every byte h2 emits). Read side uses zero padding only (receivers MAY reject non-zero padding). GOAWAY debug data ≤ 1000 B as h2's callers only pass short static strings.",
    "DESIGN.md §3 C12"),
  "C01": ("sim-pair", "exploration",
    "property-based testing (stateful/model-based): generated client+server programs, configurations, schedules and chunkings on a deterministic simulator; oracle = sent-vs-received comparison of the API event log (heads, content-addressed body bytes, trailers, clean end) per stream",
    "Generated h2-client ↔ h2-server exchanges (request/response/interim/push programs with bodies around every size constant, windows 1…1 MiB, frame sizes, buffer limits, resets and drops) run on a single-threaded executor that polls a task only when woken, over a transport that cuts reads and writes by a generated tape. Whatever the receive API returns must be a prefix of what the send API accepted on the same stream (heads in order, bytes checked against a position-keyed content function, trailers), a clean end only for completely sent messages, and complete delivery in cooperative runs.",
-   "Trusts the simulator's transport/executor contracts. Both endpoints are h2; symmetric encode/decode mistakes are caught by the independent tap (frame parser + reference HPACK decoder) that also runs on every case. What h2 never emits (padding of every length, empty and padding-only DATA) is sent by the reference peer in the flow engine and checked by cumulative position; a sixth of the requests call poll_informational again after the final head was taken.",
+   "Trusts the simulator's transport/executor contracts. Both endpoints are h2; symmetric encode/decode mistakes are caught by the independent tap (frame parser + reference HPACK decoder) that also runs on every case. What h2 never emits (padding of every length, empty and padding-only DATA) is sent by the reference peer in the flow engine and checked by cumulative position; a sixth of the requests call poll_informational again after the final head was taken. A legal message that makes the receiving h2 accuse the sending h2 of a protocol violation counts as not delivered (re-attributed accusation oracle).",
    "DESIGN.md §3 C01"),
  "C02": ("sim-pair", "exploration",
    "property-based testing: generated exchanges on the deterministic simulator; oracle = independent flow-control accountant over the tapped wire (credit = acked initial window ± acked SETTINGS deltas + delivered WINDOW_UPDATEs − DATA sent)",
@@ -47,7 +47,7 @@ CHECKS = {
  "C06": ("sim-pair", "exploration",
    "property-based testing over schedules: cooperative generated programs on an executor that polls only woken tasks; oracle = no application task pending at quiescence; stalled cases re-run with spurious polls to tell a lost wake-up from an accounting stall",
    "Cooperative programs (every reader reads and releases, every sender sends what it is assigned, connections driven by their own tasks) are run under generated schedules, chunkings, windows ≥ 1, limits ≥ 1 and mid-connection window changes. At quiescence (nothing runnable, nothing in flight) every application task must have finished. A stalled case is re-polled generously: completing then proves a lost wake-up; stalling still is an accounting stall.",
-   "Bounded liveness only (deadlock/lost-wakeup freedom per generated program and schedule), not fairness over unbounded time. The raw-queue-client engine adds requests queued behind a scripted peer's stream limit with the slots released by peer END_STREAM / own END_STREAM / send_reset / dropped handles / peer RST_STREAM; tap oracle: every submitted, uncancelled request is on the wire at quiescence unless the acknowledged limit is reached. Every scripted-peer engine (capacity, flow, acks, shutdown, goaway, both catalogues, both http engines) also runs here with the lost-wake-up oracle: a program stuck at quiescence that completes once every task is polled again was not woken by the library.",
+   "Bounded liveness only (deadlock/lost-wakeup freedom per generated program and schedule), not fairness over unbounded time. The raw-queue-client engine adds requests queued behind a scripted peer's stream limit with the slots released by peer END_STREAM / own END_STREAM / send_reset / dropped handles / peer RST_STREAM; tap oracle: every submitted, uncancelled request is on the wire at quiescence unless the acknowledged limit is reached. Programs with resets and drops (PAIR Resets) are judged for lost wake-ups only; user PINGs acknowledged while the connection lives are reported as pongs (also around a graceful shutdown, PAIR Faults); the client connection is first polled under another waker than later. Every scripted-peer engine (capacity, flow, acks, shutdown, goaway, both catalogues, both http engines) also runs here with the lost-wake-up oracle: a program stuck at quiescence that completes once every task is polled again was not woken by the library.",
    "DESIGN.md §3 C06"),
  "C05": ("sim-pair", "exploration",
    "property-based testing: generated exchanges with small limits and every close path; oracle = slot accounting over the tapped wire (open-on-the-wire count vs acknowledged limit) and over the API log (streams surfaced concurrently; refusals only when slots may be taken)",
@@ -62,22 +62,22 @@ CHECKS = {
  "C08": ("sim-raw", "exploration",
    "property-based testing / structured fuzzing: frame-soup engines (h2 server and h2 client under test) receive 1-28 generated frames following the conversation, a third of them mutated (flag flip, length field, consistent resize, type, stream id incl. R bit, payload bytes, truncation, duplication), illegal SETTINGS / WINDOW_UPDATE values, fixed-size frames of wrong size, garbage bytes, under generated chunking / schedule / blocked writes, then EOF (sometimes inside a frame); plus the RFC violation catalogue and the PAIR engines with resets and faults; oracle = no panic, no self-waking loop, no endless output inside one poll, everything completes after the peer is gone, own output stays legal",
    "Every run of every simulator engine reports panics (with location), poisoned locks and busy connection tasks as C08 violations. The soup engines add: more than 100 000 transport writes inside one poll (runaway output), and at quiescence after the peer's EOF the connection future and every application operation must have completed (lost wake-ups told apart by a generous re-poll). The endpoint's own output is still held against the framing, HPACK, state-machine and flow-control accountants.",
-   "Generated, not exhaustive: a defect that needs one specific 5-frame sequence in one specific chunking is found only with the probability the generator gives that sequence (same-stream stories are biased up for that reason).",
+   "A panic of the code under test inside a component engine (HPACK decoder, frame reader fed directly) is a verdict, and those engines run here too. Generated, not exhaustive: a defect that needs one specific 5-frame sequence in one specific chunking is found only with the probability the generator gives that sequence (same-stream stories are biased up for that reason).",
    "DESIGN.md §7.2 C08"),
  "C09": ("sim-raw", "exploration",
    "property-based testing: (generated legal prefix reaching a stream state) × (one item of an RFC 9113 violation / legal-but-unusual catalogue) × probe request; oracle = required reaction class per catalogue row (connection error / at least stream error / tolerated), containment (nothing surfaced, other streams keep working)",
-   "82 catalogue rows, each carrying the RFC sentence it encodes, are injected into an h2 server whose target stream was driven into one of the states none, open, half-closed remote, closed, reset by the peer, refused for exceeding the limit, request rejected, during and after a graceful-shutdown handshake — optionally while the server's writes are blocked; afterwards a PING barrier and a probe request decide: connection errors need GOAWAY(code≠0) and an ended connection, stream errors need at least RST_STREAM on that stream with the probe still served, legal-but-unusual items need no error at all and a served probe. Only the class of reaction is demanded, never a code.",
-   "Catalogue rows transcribed from RFC 9113 by hand (audit: harness/src/eng_raw.rs). A second engine puts an h2 client under test: 30 rows (PUSH_PROMISE misuse, frames on reserved streams, responses out of place, role-independent framing/SETTINGS/HPACK rows, legal-but-unusual traffic) x 6 states of the client's request, same oracle; forbidden promised streams must never surface as pushes.",
+   "85 catalogue rows, each carrying the RFC sentence it encodes, are injected into an h2 server whose target stream was driven into one of the states none, open, half-closed remote, closed, reset by the peer, refused for exceeding the limit, request rejected, during and after a graceful-shutdown handshake — optionally while the server's writes are blocked; afterwards a PING barrier and a probe request decide: connection errors need GOAWAY(code≠0) and an ended connection, stream errors need at least RST_STREAM on that stream with the probe still served, legal-but-unusual items need no error at all and a served probe. Only the class of reaction is demanded, never a code.",
+   "PAIR accusation oracle (h2 client <-> h2 server, cooperative and reset programs): no GOAWAY or RST_STREAM carrying PROTOCOL_ERROR / FLOW_CONTROL_ERROR / FRAME_SIZE_ERROR / COMPRESSION_ERROR that no application asked for (skipped for an accuser configured to remember no resets). Catalogue rows transcribed from RFC 9113 by hand (audit: harness/src/eng_raw.rs). A second engine puts an h2 client under test: 30 rows (PUSH_PROMISE misuse, frames on reserved streams, responses out of place, role-independent framing/SETTINGS/HPACK rows, legal-but-unusual traffic) x 6 states of the client's request, same oracle; forbidden promised streams must never surface as pushes.",
    "DESIGN.md §3 C09, App. A"),
  "C17": ("sim-pair", "exploration",
    "property-based testing: generated exchanges with send_reset(code∈u32)/handle drops at every position; oracle = RST_STREAM count/code/order per stream on the tapped wire against the API log, and error-info comparison (reason, remote/library/user, reset/go-away) on every handle",
    "Per stream and endpoint: the n-th RST_STREAM needs n−1 late peer frames (n when the first was not application-caused); RST after HEADERS on own streams; the first code equals the caller's code, CANCEL for an implicit cancel, NO_ERROR only from a server whose response was complete; an explicit send_reset on an unfinished open stream of a live connection must reach the wire; every error a handle reports as remote carries a code the peer really sent.",
-   "Discard oracle: no DATA of a stream that was not yet on the wire is written after send_reset (programs reset after END_STREAM with the body queued behind windows, the concurrency limit or a frame in flight). Peer resets delivered to the endpoint surface on the handles with the peer's code, also during a shutdown handshake (scripted peer). Codes are generated over the full u32 range (3/4 biased to the 14 registered codes). I/O failures: the Faults engine injects EOF, read errors (ConnectionReset and UnexpectedEof kinds), write errors and write-zero at generated offsets; every I/O error a handle reports must carry a text the simulated transport produced (a synthetic error made up by the library is a violation).",
+   "A task waiting in poll_reset (first polled under another waker) is woken by the peer's RST_STREAM by itself, not by the simulator's diagnostic re-poll; a peer reset that the receive API reports as a clean end has not surfaced. Discard oracle: no DATA of a stream that was not yet on the wire is written after send_reset (programs reset after END_STREAM with the body queued behind windows, the concurrency limit or a frame in flight). Peer resets delivered to the endpoint surface on the handles with the peer's code, also during a shutdown handshake (scripted peer). Codes are generated over the full u32 range (3/4 biased to the 14 registered codes). I/O failures: the Faults engine injects EOF, read errors (ConnectionReset and UnexpectedEof kinds), write errors and write-zero at generated offsets; every I/O error a handle reports must carry a text the simulated transport produced (a synthetic error made up by the library is a violation).",
    "DESIGN.md §3 C17, §7.2"),
  "C19": ("sim-pair", "exploration",
    "property-based testing: generated exchanges where every stream ends by some path and every handle is dropped; oracle = read-only statistics probe (guarded hook) at quiescence of the live connection against the a-priori idle values, wire/API check of the idle client close",
    "At quiescence of a live connection with all application tasks finished the store holds only remembered local resets (≤ quota), no orphan records, empty send buffer, zero concurrency counters, zero in-flight receive bytes, fully unassigned connection send capacity; `dangling store key` panics are attributed here; a client whose last SendRequest and stream are gone must send GOAWAY(NO_ERROR), shut the transport down and return Ok(()).",
-   "Two known findings (push-related leaks) and one record leak are listed in known_findings.json by signature; unreachable records are identified through the guarded orphans() probe and classified by their history (reset while waiting for send capacity / finished cleanly / reset / other) so that a different leak is still reported.",
+   "Every reset counted as remembered is a record still held (counter vs records). Two known findings (push-related leaks) and one record leak are listed in known_findings.json by signature; unreachable records are identified through the guarded orphans() / orphan_flags() probes and classified by the queue that still holds them, else by their history (reset while waiting for send capacity / finished cleanly / reset / other) so that a different leak is still reported.",
    "DESIGN.md §3 C19, §7.2"),
  "C13": ("sim-raw", "exploration",
    "property-based testing from a grammar: header sections (request/response/interim/trailers + one mutation) and DATA-vs-content-length sequences sent by the reference peer to an h2 server and an h2 client; oracle = RFC 9113 §8 validity predicate (refmodel::http) vs what the receive API delivers; the same predicate runs over every header section either endpoint emits",
@@ -87,22 +87,22 @@ CHECKS = {
  "C14": ("sim-raw", "exploration",
    "property-based testing: generated bursts of SETTINGS/PING interleaved with requests against an h2 server with responses in flight, half of them while the server's writes are blocked behind a finite unread pipe; oracle over the tap: ack sequences vs arrival sequences, plus the acked-settings view applied to everything sent afterwards",
    "PING acknowledgements must echo payloads in arrival order, never outnumber or precede the frames they answer, and all owed acknowledgements must be on the wire at quiescence of the live connection; frames written after an ACK must obey the acknowledged values (frame size, window deltas on open streams incl. negative windows, HPACK table size with signalled reduction, concurrency, ENABLE_PUSH switched in bursts while handlers push) — violations of those monitors are re-attributed to C14.",
-   "Client role and local-settings-at-peer-ACK are covered through the PAIR engines' set_initial_window_size operations and C02/C03 accountants.",
+   "PINGs with undefined flag bits are answered once, unsolicited (flagged) acknowledgements never. Local settings against the peer (h2 <-> h2 with set_initial_window_size at generated moments): unchanged values stay in force across later SETTINGS frames, changed ones apply at the peer's ACK — any protocol accusation between the endpoints is re-attributed here.",
    "DESIGN.md §3 C14"),
  "C15": ("sim-raw", "exploration",
    "property-based testing: graceful/abrupt shutdown of an h2 server at generated moments (optionally with a user PING outstanding) against the reference peer, and GOAWAY(any last-id, any 32-bit code, debug data, optionally two-step) sent to an h2 client with requests on both sides of the cut and late requests; oracle over tap + API log",
    "Server: GOAWAY last-stream-ids never increase and never fall below a stream already handed to accept(); graceful shutdown sends GOAWAY(2^31-1), then — once its PING is acknowledged — GOAWAY(real id), drains and completes; abrupt shutdown carries the caller's code. Client: streams above the peer's last-stream-id get no response and fail with the peer's exact code, streams at or below it complete in both directions (also when the connection window only suffices after the failed streams returned what they held), no new stream is opened once the GOAWAY was processed, the connection result carries code and debug data.",
-   "Moments are sampled (event-count triggers), not enumerated.",
+   "Moments are sampled (event-count triggers), not enumerated. PAIR programs (all foci): a client's GOAWAY never carries a last-stream-id below a pushed stream whose response the application had been handed.",
    "DESIGN.md §3 C15"),
  "C03": ("sim-raw", "exploration",
    "property-based testing (stateful): generated upload histories with every discard path and local window reconfigurations against an h2 server (reference peer) and in h2↔h2 exchanges; oracle = conservation invariants over a sampled read-only bookkeeping probe plus an independent advertised-window accountant on the tapped wire",
    "Every 8 executor steps the guarded statistics probe is sampled: connection-level `available + in flight` must equal the configured target (a leak or a double credit breaks the sum), and bytes counted in flight must be held by an application receive handle that is still alive (data discarded for reset, dropped, finished, refused streams or as padding must have been credited back). From the wire: no WINDOW_UPDATE may raise an advertised stream window above the initial window in force or the connection window above the target in force, nor above 2^31-1, and the window computable from the wire must equal the endpoint's own belief at the end.",
-   "Stream-level conservation is decided from the wire (over-credit), by the exhausted-window oracle (no stream or connection window stays at zero at quiescence while the application holds none of its bytes; hundreds of updates falling due together, blocked writes) and behaviourally (cooperative transfers complete under C06 with windows down to 1 byte); the probe exposes connection-level counters only.",
+   "With every handle gone and the connection idle nothing may be counted as in flight (readers that never release included). Stream-level conservation is decided from the wire (over-credit), by the exhausted-window oracle (no stream or connection window stays at zero at quiescence while the application holds none of its bytes; hundreds of updates falling due together, blocked writes) and behaviourally (cooperative transfers complete under C06 with windows down to 1 byte); the probe exposes connection-level counters only.",
    "DESIGN.md §3 C03"),
  "C16": ("sim-raw", "exploration",
    "property-based testing (stateful): generated capacity programs (reserve / wait-for-capacity / send / release / abandon, several streams, windows from 1 byte, max_send_buffer_size, mid-flight SETTINGS_INITIAL_WINDOW_SIZE changes) on an h2 server against the reference peer with generated window grants; oracle over API log + tap",
    "Whatever capacity() reports is spendable at once (send_data of that many bytes is accepted and the bytes reach the wire within the peer's windows); reported capacity never exceeds the request, the send-buffer bound or the windows computed independently from the tap; poll_capacity never yields a zero-sized grant while the stream can still send; capacity taken from a stream (lowered reservation, finished, reset or dropped stream, lowered initial window) becomes available to the other waiting streams: every program whose total demand fits the windows the peer granted completes.",
-   "Server role only (the send path is shared code); fairness between streams is judged only as 'nobody starves', not by proportion. Conservation probe: with every open stream reserving 1 MiB, what the streams hold together equals exactly the connection window not on the wire (release paths: lowered reservation, END_STREAM, trailers with blocked body, reset, drop, SETTINGS). A program that only finishes on the simulator's diagnostic re-poll counts as not woken.",
+   "Server role only (the send path is shared code); fairness between streams is judged only as 'nobody starves', not by proportion. Capacity spent beyond the peer's window (window lowered before the response starts) counts here. Conservation probe: with every open stream reserving 1 MiB, what the streams hold together equals exactly the connection window not on the wire (release paths: lowered reservation, END_STREAM, trailers with blocked body, reset, drop, SETTINGS). A program that only finishes on the simulator's diagnostic re-poll counts as not woken.",
    "DESIGN.md §3 C16"),
  "C18": ("sim-raw", "exploration",
    "property-based testing with a metamorphic (scaling) oracle: generated hostile traffic patterns, limits, accept behaviour and chunkings against an h2 server or client, each run with n, 2n and 4n repetitions (doubling further, up to 32n, while something still grows); oracle = plateau of sampled state counters and of the connection's live heap bytes (counting allocator) under doubling",
